@@ -57,6 +57,10 @@ pub fn resolve(spec: &Value, report: &Value) -> u64 {
         report["linker_chain"][k].as_u64().unwrap_or(0)
     } else if let Some(i) = spec.get("file_map").and_then(|s| s.as_u64()) {
         report["file_maps"][i as usize]["addr"].as_u64().unwrap_or(0)
+    } else if let Some(k) = spec.get("auxv").and_then(|s| s.as_u64()) {
+        report["real_auxv"][k.to_string()].as_u64().unwrap_or(0)
+    } else if let Some(m) = spec.get("module").and_then(|s| s.as_str()) {
+        report["modules"][m].as_u64().unwrap_or(0)
     } else if spec.get("parked_ip").is_some() {
         report["threads"].as_array().and_then(|a| a.iter().find_map(|t| t["parked_ip"].as_u64())).unwrap_or(0)
     } else {
@@ -149,6 +153,13 @@ pub fn build_crash_context(cc: &Value, report: &Value, tid: i32) -> (CrashContex
     supplied.insert("signo".into(), json!(si.ssi_signo));
     supplied.insert("code".into(), json!(si.ssi_code as u32));
     supplied.insert("fault_addr".into(), json!(format!("{:x}", si.ssi_addr)));
+    // the thread id stored inside the context is the blamed thread's unless the scenario says otherwise ("tid": a thread spec or a number)
+    let tid = match cc.get("tid") {
+        Some(t) if t.is_object() || t.is_string() => resolve_tid(t, report),
+        Some(t) => t.as_i64().unwrap_or(0) as i32,
+        None => tid,
+    };
+    supplied.insert("ctx_tid".into(), json!(tid));
     let inner = crash_context::CrashContext { context: ctx, float_state: fs, siginfo: si, pid: report["pid"].as_i64().unwrap_or(0) as i32, tid };
     (CrashContext { inner }, Value::Object(supplied))
 }
@@ -623,6 +634,26 @@ pub fn worker_main(scn: &Value, report: &Value, shared_path: Option<String>, out
                     }
                 }
             }
+            "fake" => {
+                // {"op":"fake","path":"/proc/cpuinfo","content_hex":".."}: what this worker (only) sees at `path` from now on
+                let path = step["path"].as_str().unwrap_or("/proc/cpuinfo").replace("{pid}", &pid.to_string());
+                let path = path.as_str();
+                let mut content = unhex(step["content_hex"].as_str().unwrap_or(""));
+                // "pairs": [[key, value spec], ..] = an auxiliary vector; "extra": bytes of a truncated pair after them
+                for pr in step.get("pairs").and_then(|v| v.as_array()).cloned().unwrap_or_default() {
+                    content.extend_from_slice(&pr[0].as_u64().unwrap_or(0).to_le_bytes());
+                    content.extend_from_slice(&resolve(&pr[1], report).to_le_bytes());
+                }
+                content.extend(std::iter::repeat(0x11u8).take(step.get("extra").and_then(|v| v.as_u64()).unwrap_or(0) as usize));
+                match fake_file(path, &content) {
+                    Ok(()) => {}
+                    Err(e) => {
+                        tr.emit(json!({"ev":"fake_unavailable","path":path,"error":e}));
+                        tr.flush();
+                        break;
+                    }
+                }
+            }
             "flag" => {
                 // e.g. {"op":"flag","exit_slot":3} between dumps: change the target
                 if let (Some(slot), Some(p)) = (step.get("exit_slot").and_then(|v| v.as_u64()), PLAN.lock().unwrap().as_ref().and_then(|p| p.shared_path.clone())) {
@@ -655,6 +686,9 @@ pub fn worker_main(scn: &Value, report: &Value, shared_path: Option<String>, out
                 let pre_len = step.get("pre_len").or_else(|| faults.get("pre_len")).and_then(|v| v.as_u64()).unwrap_or(0) as usize;
                 let shared = std::rc::Rc::new(std::cell::RefCell::new(RecDest::new(start, pre_len)));
                 shared.borrow_mut().fail_at = step.get("dest_fail_at").or_else(|| faults.get("dest_fail_at")).and_then(|v| v.as_u64()).map(|k| k as usize);
+                // {"dest_short_at": [call index, bytes accepted, disk full afterwards]}
+                shared.borrow_mut().short_at = step.get("dest_short_at").or_else(|| faults.get("dest_short_at")).and_then(|v| v.as_array())
+                    .map(|a| (a[0].as_u64().unwrap_or(0) as usize, a[1].as_u64().unwrap_or(0) as usize, a[2].as_bool().unwrap_or(false)));
                 let seqs = std::rc::Rc::new(std::cell::RefCell::new(Vec::new()));
                 let mut dest = PlanDest { inner: shared.clone(), seqs: seqs.clone() };
                 DEST.with(|d| *d.borrow_mut() = Some((shared.clone(), 0)));
@@ -712,7 +746,7 @@ pub fn worker_main(scn: &Value, report: &Value, shared_path: Option<String>, out
                     if let Some(se) = p.stream_bytes(img, mdparse::T_SOFTERR) {
                         rec["soft_errors_raw"] = json!(String::from_utf8_lossy(se));
                     }
-                    if rec["outcome"] == "ok" || scn.get("oracles_on_error").is_some() {
+                    if (rec["outcome"] == "ok" || scn.get("oracles_on_error").is_some()) && scn.get("no_oracles").is_none() {
                         rec["oracle"] = collect_oracles(report, pid, writer.blamed_thread, &p, img, scn.get("want_regs").and_then(|v| v.as_bool()).unwrap_or(false),
                                                         scn.get("want_modules").and_then(|v| v.as_bool()).unwrap_or(false));
                     }
@@ -751,7 +785,42 @@ pub fn worker_main(scn: &Value, report: &Value, shared_path: Option<String>, out
     }
     minidump_writer::verif_hooks::set_hook(None);
     CLIENT.with(|c| c.borrow_mut().take());
+    for (_, b) in BACKING.lock().unwrap().drain(..) {
+        let _ = std::fs::remove_file(b);
+    }
     tr.flush();
+}
+
+/// Substitute the content of `path` for this process only: a private mount namespace (entered on first use) in which a
+/// regular file of ours is bind-mounted over `path`; later calls for the same path rewrite that file.
+fn unhex(s: &str) -> Vec<u8> {
+    (0..s.len() / 2).map(|i| u8::from_str_radix(&s[2 * i..2 * i + 2], 16).unwrap_or(0)).collect()
+}
+static BACKING: Mutex<Vec<(String, String)>> = Mutex::new(Vec::new());
+fn fake_file(path: &str, content: &[u8]) -> Result<(), String> {
+    let mut g = BACKING.lock().unwrap();
+    if let Some((_, b)) = g.iter().find(|(p, _)| p == path) {
+        return std::fs::write(b, content).map_err(|e: std::io::Error| e.to_string());
+    }
+    if g.is_empty() {
+        if unsafe { libc::unshare(libc::CLONE_NEWNS) } != 0 {
+            return Err(format!("unshare: {}", std::io::Error::last_os_error()));
+        }
+        let root = std::ffi::CString::new("/").unwrap();
+        if unsafe { libc::mount(std::ptr::null(), root.as_ptr(), std::ptr::null(), libc::MS_REC | libc::MS_PRIVATE, std::ptr::null()) } != 0 {
+            return Err(format!("make-rprivate: {}", std::io::Error::last_os_error()));
+        }
+    }
+    let backing = format!("/dev/shm/mdw_fake_{}_{}", std::process::id(), g.len());
+    std::fs::write(&backing, content).map_err(|e| e.to_string())?;
+    let (src, dst) = (std::ffi::CString::new(backing.clone()).unwrap(), std::ffi::CString::new(path).unwrap());
+    if unsafe { libc::mount(src.as_ptr(), dst.as_ptr(), std::ptr::null(), libc::MS_BIND, std::ptr::null()) } != 0 {
+        let e = format!("bind mount: {}", std::io::Error::last_os_error());
+        let _ = std::fs::remove_file(&backing);
+        return Err(e);
+    }
+    g.push((path.to_string(), backing));
+    Ok(())
 }
 
 // ------------------------------------------------------------------ the parent: target + watchdog + observation
@@ -788,6 +857,29 @@ pub fn run_scenario(scn: &Value, workdir: &str, tr: &mut Trace) {
             return;
         }
     };
+    // what the kernel says: the auxiliary vector and where each file-backed module starts
+    {
+        let pidn = t.report["pid"].as_i64().unwrap_or(0);
+        let mut aux = serde_json::Map::new();
+        if let Ok(b) = std::fs::read(format!("/proc/{pidn}/auxv")) {
+            for ch in b.chunks_exact(16) {
+                let (k, v) = (u64::from_le_bytes(ch[..8].try_into().unwrap()), u64::from_le_bytes(ch[8..].try_into().unwrap()));
+                if k == 0 { break; }
+                aux.entry(k.to_string()).or_insert(json!(v));
+            }
+        }
+        t.report["real_auxv"] = Value::Object(aux);
+        let mut mods = serde_json::Map::new();
+        if let Ok(text) = std::fs::read_to_string(format!("/proc/{pidn}/maps")) {
+            for l in crate::maps::parse_text(&text) {
+                if let Some(n) = l.name.as_deref().filter(|n| n.starts_with('/') || *n == "[vdso]") {
+                    let base = n.rsplit('/').next().unwrap_or(n).to_string();
+                    mods.entry(base).or_insert(json!(l.start));
+                }
+            }
+        }
+        t.report["modules"] = Value::Object(mods);
+    }
     tr.emit(json!({"ev":"scenario","id":id,"scn":scn,"report":t.report}));
     tr.flush();
     // threads that another tracer (this process) already holds: the dumper's attach fails with EPERM for them
